@@ -13,6 +13,7 @@ CONSTANTS MaxNew,          \* blocks stored after genesis
           MayRevert,       \* transactions whose execution may revert
           CheckAdmission,  \* TRUE: blocks enter only through AcceptBlock; FALSE: any block may be stored (repository level)
           BestChoices,     \* values of the asBest flag of AddBlock
+          ChildOfBestIsBest,
           UseConflicts,    \* FALSE = deliberately broken design: every block stored with conflicts = 0
           TxTable          \* tx id -> facts
 
@@ -39,7 +40,7 @@ AddBlock ==
     IN /\ Cardinality(Known) <= MaxNew
        /\ n <= MaxHeight
        /\ ScanConflicts(n) < MaxSib
-       /\ (p = best => ab)      \* fork choice of the node: a child of the best block is always better than it
+       /\ (ChildOfBestIsBest /\ p = best => ab)      \* TRUE = the node's fork choice; FALSE = anything AddBlock permits
        /\ IF CheckAdmission
           THEN AcceptBlock(<<n, ScanConflicts(n)>>, p, conf, txs, revs, [i \in DOMAIN txs |-> 0], n, ab)
           ELSE Store(<<n, ScanConflicts(n)>>, p, conf, txs, revs, [i \in DOMAIN txs |-> 0], n, ab)
